@@ -53,7 +53,9 @@ def gen_case(rng, index, tier):
         if arg['spelling'].startswith('-'):
             arg['spelling'] = './' + arg['spelling']
         args.append(arg)
-    state = rng.choice(['first-use', 'existing', 'collision', 'collision-orphan'])
+    state = rng.choice(['first-use', 'existing', 'collision', 'collision-orphan',
+                        'collision-orphan-dir', 'collision-stale-info',
+                        'collision-dangling-pair'])
     # the trash dir that will be used
     if where in ('home', 'fallback'):
         tdir = L.home_trash()
@@ -73,8 +75,19 @@ def gen_case(rng, index, tier):
                     tdir, nm, world.trashinfo_text('old/' + spec.pct_encode(nm.encode()),
                                                    '2001-01-01T00:00:00'),
                     [{'p': '', 't': 'f', 'c': 'old payload'}]))
-            else:
+            elif state == 'collision-orphan':
                 L.add({'p': tdir + '/files/' + nm, 't': 'f', 'c': 'old orphan'})
+            elif state == 'collision-orphan-dir':
+                L.add({'p': tdir + '/files/' + nm, 't': 'd', 'm': 0o755})
+                L.add({'p': tdir + '/files/' + nm + '/inner', 't': 'f',
+                       'c': 'inner of old orphan dir'})
+            elif state == 'collision-dangling-pair':
+                L.add({'p': tdir + '/info/' + nm + '.trashinfo', 't': 'f',
+                       'c': world.trashinfo_text('old/dangling', '2001-01-01T00:00:00')})
+                L.add({'p': tdir + '/files/' + nm, 't': 'l', 'to': 'nowhere'})
+            else:
+                L.add({'p': tdir + '/info/' + nm + '.trashinfo', 't': 'f',
+                       'c': world.trashinfo_text('stale/x', '2001-01-01T00:00:00')})
     opts = []
     env = {}
     if where == 'fallback':
@@ -122,9 +135,13 @@ def judge_state(case, w, s0, s1, des, label, out, r):
                     same_entry(snap.subtree(n1, q), sig0, case)]
         if not at_orig and not in_trash:
             bad.append(('entry-complete-nowhere', P))
-    # every payload under files/ (except pre-existing ones) has a good info
+    # every payload under files/ (except pre-existing ORPHANS) has a good info
     for q in roots1:
         if q in n0:
+            # an old payload that had its info must still have it
+            ik0 = putcheck.info_for_payload(q)
+            if ik0 in n0 and ik0 not in n1:
+                bad.append(('old-payload-lost-its-info', q))
             continue
         obs['payloads_checked_for_info'] = obs.get('payloads_checked_for_info', 0) + 1
         ik = putcheck.info_for_payload(q)
